@@ -351,7 +351,8 @@ def to_bytes_expr(cd):
 
 def part_c(tier, i, n, seed, R, idx0):
     idx = idx0
-    chain_leaves = [('VR', -2, 4), ('VR', 0, 3), ('SV', 1, 2, 3), ('VR', 1, 2), ('SV', 2)]
+    # incl. constraints of different kinds spelled with the same arguments (VR(0,3) / SV(0,3), VR(1,2) / SV(1,2))
+    chain_leaves = [('VR', -2, 4), ('VR', 0, 3), ('SV', 1, 2, 3), ('VR', 1, 2), ('SV', 2), ('SV', 0, 3), ('SV', 1, 2)]
     maxlen = 3
     # the root type declares its constraint the documented way, as a class attribute holding any constraint object
     roots = [None, ('OR', ('VR', -2, 0), ('VR', 2, 4)), ('NOT', ('SV', 1)), ('VR', -2, 4), ('AND', ('VR', -3, 3))]
@@ -487,7 +488,7 @@ def part_d(tier, i, n, seed, R, idx0):
              ('OR', ('SZ', 0, 0), ('SZ', 3, 3))]
     for cls in (univ.SequenceOf, univ.SetOf):
         for cd in sizes:
-            for how in ('subtypeSpec', 'sizeSpec'):
+            for how in ('subtypeSpec', 'sizeSpec', 'subtypeSpec/untyped'):
                 for nmem in range(0, 5):
                     idx += 1
                     if (idx + seed) % n != i:
@@ -495,10 +496,14 @@ def part_d(tier, i, n, seed, R, idx0):
                     want = C.admits_raw(cd, list(range(nmem)))
                     for ename, enc in encs:
                         # a fresh object per encoder call: effects of earlier calls are C12's subject
-                        obj = cls(componentType=univ.Integer(), **{how: C.to_pyasn1(cd)})
+                        if how.endswith('/untyped'):
+                            # a container that does not declare its member type
+                            obj = cls(subtypeSpec=C.to_pyasn1(cd))
+                        else:
+                            obj = cls(componentType=univ.Integer(), **{how: C.to_pyasn1(cd)})
                         obj.clear()
                         for k in range(nmem):
-                            obj.append(k)
+                            obj.append(univ.Integer(k))
                         R.evaluations += 1
                         R.nontrivial((cls.__name__, cd, how, nmem, ename))
                         feats = {'d.size', 'enc:' + ename, 'via:' + how, cls.__name__}
